@@ -91,6 +91,16 @@ Section Groups.
     | _, _ => bind (mapM (fun c => branch_of_group (And (map Atom c))) alts) (fun bs => Some (POr bs))
     end)).
 
+  (* what compile amounts to, given the alternatives of the DNF (Groups_proofs.compile_spec):
+     one branch per alternative, one member head per atom occurrence, WaitForHeads(number of
+     members); `when` always forks, match/await only for more than one alternative *)
+  Definition prog_of (st : stmt) (alts : list (list A)) : prog :=
+    match st, alts with
+    | SWhen, _ => POr (map branch_of alts)
+    | _, [c] => PSingle (branch_of c)
+    | _, _ => POr (map branch_of alts)
+    end.
+
   (* ---------- the heads ---------- *)
   Inductive head :=
   | HMatch (a : A)   (* listening on `match a` *)
@@ -181,6 +191,7 @@ Arguments POr {A} bs.
 Arguments branch_of {A} c.
 Arguments branch_of_group {A} g.
 Arguments compile {A} st f.
+Arguments prog_of {A} st alts.
 Arguments HMatch {A} a.
 Arguments HWait {A}.
 Arguments mkB {A} b_heads b_need.
